@@ -61,6 +61,15 @@ TRUSTED = [
     "theorem shared_default_set_hazard shows an in-place growth reaches open connections). No rpyc code grows it "
     "(measured for the classic connect, compared deep-equal after every event of every history); application code "
     "that mutates that set in place is outside the statement (`HEvent.fair`)",
+    "handlers that take no attribute name are outside this property: repr/str/hash/dir/inspect/call/buffiter/"
+    "instancecheck reach an object without consulting the attribute policy or an object's hooks (C07 / C02 cover what "
+    "they can do); C06 covers getattr/setattr/delattr/callattr/cmp/ctxexit/oldslicing",
+    "probes are compared as SETS per request (which names were probed on which object), not their order or repetition; "
+    "the accesses, hook calls and calls are compared in order",
+    "a class whose METACLASS defines `_rpyc_getattr` is outside the shapes: `getattr(type(obj), '_rpyc_getattr', None)` "
+    "finds the metaclass's hook bound to the class and every by-name request on its instances fails with TypeError",
+    "histories are single-threaded: two concurrent classic connects sharing ONE SlaveService instance (`self._conn = "
+    "conn` in on_connect) are not explored",
     "calling `SlaveService.on_connect(conn)` by hand on an established or closed connection is not a history event "
     "(the classic overrides belong to the connect); `_cleanup` keeps `_config` of a closed connection",
 ]
@@ -85,12 +94,14 @@ EXPLANATION = (
     "only AttributeError otherwise); a refused request (getattr/setattr/delattr/callattr, cmp, ctxexit, both stages of "
     "oldslicing) leaves nothing but hasattr probes of the name and its twin — no accessor, hook or call; what is read "
     "and called on success is exactly the approved name; type-level hooks make the configuration irrelevant, restricted "
-    "views permit exactly attrs/wattrs, a delete on a view reaches the target only by reads of listed names, Service "
-    "refuses writes/deletes; isolation over a HEAP of dict objects with identity (DEFAULT_CONFIG, the application's "
+    "views permit exactly attrs/wattrs — also for HANDLE_CMP requests, where the object's own read hook decides "
+    "(cmp_hook_decides; cmp_bypass_counterexample is the variant before the repair) —, a delete on a view reaches the "
+    "target only by reads of listed names, Service refuses writes/deletes; isolation over a HEAP of dict objects with identity (DEFAULT_CONFIG, the application's "
     "dicts, one _config chain per connection, the shared default safe_attrs set object): for the construction the "
     "generator measured on the live code (own shallow copy; classic overrides into the connection's own dict) an "
-    "established connection's configuration survives every later event, rpyc never writes DEFAULT_CONFIG or a caller's "
-    "dict, opening takes a snapshot; each state-sharing variant (aliasing DEFAULT_CONFIG / the caller's dict, a "
+    "established connection's configuration survives every later event, rpyc never writes the modelled keys of "
+    "DEFAULT_CONFIG, of a caller's dict or of another server's protocol_config (Server.__init__ does write a `logger` "
+    "entry into the dict it is given), opening takes a snapshot; each state-sharing variant (aliasing DEFAULT_CONFIG / the caller's dict, a "
     "read-through mapping, classic overrides written into the caller's dict, growing the shared set) is in the model "
     "and provably breaks isolation; name typing (valid UTF-8 bytes = text, non-text TypeError, undecodable "
     "UnicodeDecodeError, all before any effect).")
@@ -582,10 +593,11 @@ def run_real(conn, obj, req, name):
 def show_log(log):
     out = []
     for tag, kind, name in log:
+        nm = cps(name) if type(name) is str else "NONTEXT"      # e.g. type(view).__getattribute__(view, <other>)
         if kind == "c":
-            out.append("c:" + cps(name))
+            out.append("c:" + nm)
         else:
-            out.append("%s%d:%s" % (kind, tag, cps(name)))
+            out.append("%s%d:%s" % (kind, tag, nm))
     return "".join(x + " " for x in out)
 
 
@@ -1012,7 +1024,7 @@ def gen_history(r):
             # in place afterwards (`server.protocol_config[...] = ...`, the idiom of the library's own tests)
             if len(servers) < N_SERVERS and (not servers or r.chance(1, 2)):
                 sk = len(servers)
-                servers[sk] = r.choice(["void", "void", "void", "slave", "slave", "void", "void-pool"])
+                servers[sk] = r.choice(["void", "void", "slave"]) if not r.chance(1, 12) else "void-pool"
                 evs.append(["newserver", sk, None if r.chance(3, 4) else r.below(N_DICTS), servers[sk]])
             else:
                 evs.append(["editserver", r.choice(sorted(servers)), gen_env_overlay(r)])
@@ -1379,7 +1391,7 @@ def outcome_class(line, text, twin):
 def correspondence(ctx):
     c = Corr()
     prefixes = ctx.budget(PREFIXES_QUICK, PREFIXES_THOROUGH)
-    n_hist = ctx.budget(700, 6000)
+    n_hist = ctx.budget(600, 6000)
     c.rule = (
         "decision table enumerated COMPLETELY (thorough tier: again with a caller-supplied safe list for two prefixes): "
         "128 settings of the seven attribute switches x prefixes %r x %d name "
@@ -1389,7 +1401,8 @@ def correspondence(ctx):
         "shapes (has name / twin / both / neither, own hooks allowing / refusing with ValueError, get-hook only, three "
         "restricted views, Service subclass, hook set to None, instance-level hook) x getattr/setattr/delattr/callattr "
         "(+ oldslicing with a fixed fallback name, also with a first value whose call raises; + ctxexit on __exit__; + cmp "
-        "on 5 type-level shapes), each on the real Connection._handle_* with a fresh "
+        "with 5 further operator names on 4 type-level shapes + instance-hooked classes (allowing / refusing / refusing "
+        "with ValueError), a restricted view and a Service instance), each on the real Connection._handle_* with a fresh "
         "logging canary; compared: ordered log of attributes read/written/deleted/called, accessor-or-hook reached, "
         "exception class. Then %d seeded connection histories (open with literal config dicts or with application dict "
         "objects that are edited after use and reused / connection kinds: bare Connection, Void/custom Service._connect, "
@@ -1442,26 +1455,27 @@ def correspondence(ctx):
                 continue
             case, impl, shape = rec
             n_table += 1
-            got = flat_memo.get(o)
-            if got is None:
-                got = flat_memo[o] = flatten_model(o)
-            if shape is not None and shape.kind == "cmp-view":
-                got = observable(shape, got)
-            got, impl = canon(got), canon(impl)
             nc = case["name_class"]
-            key = (nc, impl, o)
+            cmpview = shape is not None and shape.kind == "cmp-view"
+            key = (nc, impl, o, cmpview)
             info = cls_memo.get(key)
             if info is None:
+                got = flatten_model(o)
+                if cmpview:
+                    got = observable(shape, got)
+                got, cimpl = _canon(got), _canon(impl)
                 nm = ncls[nc]
                 text = decoded_or_fallback(nm)
                 twin = p + text
                 tail = o.rpartition("-> ")[2]
                 info = cls_memo[key] = (
-                    "impl:" + outcome_class(impl, text, twin),
+                    "impl:" + outcome_class(cimpl, text, twin),
                     "model:" + (" ".join(tail.split(" ")[:2]) if tail.startswith("ok") else tail),
                     "probes:%d" % sum(1 for t in o.split(" ") if t.startswith("p")),
-                    abstract(impl, text, twin),
-                    impl == "P{} -> err AttributeError" and type(nm) is str)
+                    abstract(cimpl, text, twin),
+                    cimpl == "P{} -> err AttributeError" and type(nm) is str,
+                    got, cimpl)
+            got, impl = info[5], info[6]
             for k in (info[0], info[1], info[2], "req:" + case["req"]):
                 dist[k] = dist.get(k, 0) + 1
             if not info[4]:
@@ -1588,7 +1602,7 @@ def parse_observed(line):
     entries = []
     for t in toks:
         head, _, nm = t.partition(":")
-        name = "".join(chr(int(x)) for x in nm.split(",")) if nm else ""
+        name = "<non-text>" if nm == "NONTEXT" else "".join(chr(int(x)) for x in nm.split(",")) if nm else ""
         entries.append((head, name))
     return entries, out.strip()
 
